@@ -12,7 +12,7 @@ import (
 
 // Root says which object a pointer-like value is reached from.
 type Root struct {
-	Kind byte   // 'p' parameter, 'g' global, 'f' fresh allocation, 'u' unknown, 'v' free variable
+	Kind byte   // 'p' parameter, 'g' global, 'f' fresh allocation, 'u' unknown, 'v' free variable, 'o' result of opaque user code
 	Idx  int    // parameter index (receiver = 0)
 	Elem bool   // reached through a user element (slot >= 1, condition.ex, map value)
 	Name string // global name or alloc id
@@ -31,6 +31,8 @@ func (r Root) String() string {
 		s = "fresh:" + r.Name
 	case 'u':
 		s = "unknown"
+	case 'o':
+		s = "user-result"
 	}
 	if r.Elem {
 		s = "elem(" + s + ")"
@@ -509,10 +511,8 @@ func (e *Effects) callResultRoots(fe *fnEffects, c *ssa.Call, idx int) RootSet {
 	}
 	args := e.callArgs(&c.Call)
 	if c.Call.IsInvoke() {
-		// interface method: result may alias the receiver (opaque user code)
-		for _, a := range args {
-			out.addAll(e.rootsOf(fe, a).elemOf())
-		}
+		// interface method: opaque user code
+		out[Root{Kind: 'o'}] = true
 		return out
 	}
 	callee := e.p.callee(&c.Call)
@@ -553,11 +553,8 @@ func (e *Effects) callResultRoots(fe *fnEffects, c *ssa.Call, idx int) RootSet {
 			}
 			return out
 		}
-		// dynamic call of a function value: opaque
-		for _, a := range args {
-			out.addAll(e.rootsOf(fe, a).elemOf())
-		}
-		out.addAll(e.rootsOf(fe, c.Call.Value).elemOf())
+		// dynamic call of a function value: opaque user code
+		out[Root{Kind: 'o'}] = true
 		return out
 	}
 	if ce, ok := e.fns[callee]; ok {
